@@ -218,12 +218,39 @@ def r3(ctx, facts):
         tables = {f for f in fields if f not in holding and not fields[f].startswith("std::marker::PhantomData")}
         if "clean" in im["items"]:
             n += 1
+        def direct_table_muts(b):
+            out = []
+            for bb, t in b.calls():
+                if not t["args"]:
+                    continue
+                o = b.arg_origin(bb, 0)
+                a0 = t["args"][0]
+                if o[0] == "param" and o[1] == 1 and o[2] and o[2][0] in tables and isinstance(a0, dict) and str(a0.get("ty", "")).startswith("&mut"):
+                    out.append((bb, o[2][0]))
+            for sbb, si, dst, rv, line in b.stores():
+                o = b.origin(dst)
+                if o[0] == "param" and o[1] == 1 and o[2] and o[2][0] in tables:
+                    out.append((sbb, o[2][0]))
+            return out
+        # sibling methods of the same impl that mutate an index table: handing them the whole `&mut self` after a destructor may have run is a
+        # table mutation too (seed C19-g2: an overriding drop() destroys in place, then calls self.remove(id) to unlink)
+        sib_mut = {}
+        for mname2, mpath2 in im["items"].items():
+            b2 = facts.body(mpath2)
+            if b2 and direct_table_muts(b2):
+                sib_mut[mpath2] = mname2
+                sib_mut["storage::UnprotectedStorage::" + mname2] = mname2
         for mname, mpath in sorted(im["items"].items()):
             b = facts.body(mpath)
             if not b:
                 continue
             maydrop = destructor_sites(b, tparam, holding)
             tablemut = []
+            for bb, t in b.calls():
+                cp = t["callee"].get("path") or ""
+                if cp in sib_mut and t["args"] and b.arg_origin(bb, 0) == ("param", 1, ()) and \
+                        base_ty(t["callee"].get("self_ty") or im["self_ty"]) == base_ty(im["self_ty"]):
+                    tablemut.append((bb, "(via self.%s)" % sib_mut[cp]))
             for bb, t in b.calls():
                 if not t["args"]:
                     continue
